@@ -812,6 +812,17 @@ fn run_history(line: &str, out: &mut impl std::io::Write) -> Result<()> {
                     missed.push(m.to_string());
                 }
             }
+            // the budgeted selections that cover everything: 100 % and a size of at least the total;
+            // several runs each, the shuffle is random
+            for (name, o) in [("p100", rustic_core::ReadSubsetOption::Percentage(100.0)), ("size", rustic_core::ReadSubsetOption::Size(u64::from(u32::MAX) * 16))] {
+                for _ in 0..3 {
+                    let opts = CheckOptions::default().read_data(true).read_data_subset(o);
+                    if run_check_opts(st.clone(), &h.key, opts).0 == "clean" {
+                        missed.push(name.to_string());
+                        break;
+                    }
+                }
+            }
             cycle = if missed.is_empty() { "ok".to_string() } else { format!("missed:{}", missed.join("+")) };
         }
         writeln!(out, "F {}/{}/{}/{} file={} check={verdict} kinds={} restored={nrest} restore={} cycle={cycle}", tpe.dirname(), &id.to_hex().as_str()[..8], f.kind(), f.detail(),
